@@ -351,8 +351,14 @@ def check_none_guard(p, report, rule="R19.7"):
                 direct = {ast.unparse(x) for x in ast.walk(v) if isinstance(x, (ast.Name, ast.Attribute))}
                 if tested in direct:
                     return True
-                from ..deps import closure
-                return tested in closure({x.id for x in ast.walk(v) if isinstance(x, ast.Name)}, fedges)
+                # a name whose only definition is a row selection of the tested variable (w = tested[mask]) is
+                # None exactly when the tested variable is; any other derivation may replace None by a default
+                if isinstance(v, ast.Name):
+                    ds = [d for d in ast.walk(f.node) if isinstance(d, ast.Assign) and len(d.targets) == 1
+                          and isinstance(d.targets[0], ast.Name) and d.targets[0].id == v.id]
+                    if len(ds) == 1 and isinstance(ds[0].value, ast.Subscript) and ast.unparse(ds[0].value.value) == tested:
+                        return True
+                return False
             ok = all(derives(k.value) for k in extra)
             n += 1
             report.add(rule, f.qual, f"`if {norm_stmt(st.test, 40)}` guards the optional argument of {site_id(with_, 40)}",
